@@ -24,7 +24,7 @@ PINS = [("mpz/tdiv_qr.c", None), ("mpz/tdiv_q.c", None), ("mpz/tdiv_r.c", None),
         ("mpz/fdiv_r.c", None), ("mpz/cdiv_r.c", None), ("mpz/mod.c", None), ("mpz/divexact.c", None), ("mpz/dive_ui.c", None), ("mpz/tdiv_q_ui.c", None), ("mpz/fdiv_q_ui.c", None), ("mpz/cdiv_q_ui.c", None),
         ("mpz/tdiv_r_ui.c", None), ("mpz/fdiv_r_ui.c", None), ("mpz/cdiv_r_ui.c", None),
         ("mpz/tdiv_qr_ui.c", None), ("mpz/fdiv_qr_ui.c", None), ("mpz/cdiv_qr_ui.c", None),
-        ("mpz/mul_2exp.c", None), ("mpz/tdiv_q_2exp.c", None), ("mpz/cfdiv_q_2exp.c", None), ("mpz/tdiv_r_2exp.c", None),
+        ("mpz/mul_2exp.c", None), ("mpz/tdiv_q_2exp.c", None), ("mpz/cfdiv_q_2exp.c", None), ("mpz/tdiv_r_2exp.c", None), ("mpz/cfdiv_r_2exp.c", None),
         ("mpz/sqrtrem.c", None), ("mpz/gcd.c", None), ("mpz/neg.c", None), ("mpz/abs.c", None), ("mpz/and.c", None), ("mpz/ior.c", None), ("mpz/xor.c", None), ("mpz/com.c", None),
         ("mpf/neg.c", None), ("mpf/abs.c", None), ("mpf/add.c", None), ("mpf/sub.c", None), ("mpf/add_ui.c", None),
         ("mpf/sub_ui.c", None), ("mpf/ui_sub.c", None),
@@ -111,7 +111,7 @@ def gen_ops(rng, tier, ctx=None):
                         v[n] = v[d] * k
                     yield "alias_divexact %x %x %x 0 %s" % (w, n, d, " ".join(hx(x) for x in v))
     # in-place shifts: every (w, u), bit counts around limb boundaries, carry limb / no carry limb, top limb zero after the right shift
-    for fn in ("mul_2exp", "tdiv_q_2exp", "cdiv_q_2exp", "fdiv_q_2exp", "tdiv_r_2exp"):
+    for fn in ("mul_2exp", "tdiv_q_2exp", "cdiv_q_2exp", "fdiv_q_2exp", "tdiv_r_2exp", "cdiv_r_2exp", "fdiv_r_2exp"):
         for w in range(4):
             for u in range(4):
                 for _ in range(reps * 6):
